@@ -164,11 +164,11 @@ def gen_step(rng, vals):
                 ('array_split', None, [i]), ('split', None, [i]), ('kron', None, [i]), ('outer', None, [i]), ('block', None, [i])]
     if nd == 1:
         ops += [('dot', None, [i]), ('inner', None, [i]), ('diag', None, [i]), ('diagflat', None, [i]), ('matmul_l', None, [i]),
-                ('tensordot1', None, [i])]
+                ('tensordot1', None, [i]), ('matmul_sel_l', None, [i]), ('matmul_sel_r1', None, [i])]
     if nd == 2:
         ops += [('trace', None, [i]), ('diag', None, [i]), ('tril', None, [i]), ('triu', None, [i]), ('matmul_l', None, [i]),
                 ('matmul_r', None, [i]), ('multi_dot', None, [i]), ('hsplit', None, [i]), ('vsplit', None, [i]), ('tensordot1', None, [i]),
-                ('dot', None, [i])]
+                ('dot', None, [i]), ('matmul_sel_l', None, [i]), ('matmul_sel_r', None, [i])]
     if nd == 3:
         ops += [('dsplit', None, [i]), ('trace3', None, [i])]
     # ---- binary with another array of a broadcast-compatible shape
@@ -288,6 +288,17 @@ def gen_step(rng, vals):
     if name == 'matmul_l':
         c = rc(rng, [rng.randint(1, 3), shape[0]])
         return name, lambda m, a: c @ a[0], ins
+    if name in ('matmul_sel_l', 'matmul_sel_r', 'matmul_sel_r1'):
+        # selection / permutation matrices (rows with a single nonzero entry): result cells that are copies of single cells,
+        # in particular of purely constant cells
+        k = shape[0] if name == 'matmul_sel_l' else shape[-1]
+        rows_ = rng.randint(1, k + 1)
+        sel = np.zeros((rows_, k))
+        for r_ in range(rows_):
+            sel[r_, rng.randrange(k)] = float(rng.choice([1, 1, 1, 2, -1]))
+        if name == 'matmul_sel_l':
+            return name, lambda m, a: sel @ a[0], ins
+        return name, lambda m, a: a[0] @ sel.T, ins
     if name == 'matmul_r':
         c = rc(rng, [shape[1], rng.randint(1, 3)])
         return name, lambda m, a: a[0] @ c, ins
@@ -501,6 +512,19 @@ def nonlinear_stream(ctx, rng, count):
         z = cl.Variable(shape=(2,), name='c08eqz_%d_%d' % (ctx.seed, t))
         pairs = [(x + z, x, False), (x, x + z, False), (x - x + z, z, True), (2 * x + 1, x + x + 1, True), (x + 1, x + 2, False),
                  (x, z, False), (x[0], x, False), (x * 0.5 + z, z + 0.5 * x, True)]
+        # nonlinear atoms of DIFFERENT kinds whose ids coincide (every atom class numbers its atoms from its own counter)
+        def atom_id(e):
+            return list(e.flat[0].atoms_to_coeffs.keys())[0].id
+        xa, xp = cl_abs(x[0:1]), cl_pos(x[0:1])
+        for _ in range(200):
+            ia, ip = atom_id(xa), atom_id(xp)
+            if ia == ip:
+                break
+            if ia < ip:
+                xa = cl_abs(x[0:1])
+            else:
+                xp = cl_pos(x[0:1])
+        pairs += [(xa, xp, False), (2 * xa + 1, 2 * xp + 1, False), (xa + z[0:1], z[0:1] + xa, True), (xa, x[0:1], False)]
         for a, b, want in pairs:
             ctx.case({'stream': 'are_equivalent', 'pair': pairs.index((a, b, want))})
             ctx.count('stream:are_equivalent')
